@@ -127,6 +127,10 @@ func Lib(repo, verif, scratch string) (*Overlay, error) {
 	if err := mapDir(o, filepath.Join(verif, "overlaysrc", "verifsync"), filepath.Join(repo, "verifsync")); err != nil {
 		return nil, err
 	}
+	// the work counters exist in every build; only C10's build instruments the code (Cost)
+	if err := mapDir(o, filepath.Join(verif, "overlaysrc", "verifcost"), filepath.Join(repo, "verifcost")); err != nil {
+		return nil, err
+	}
 	// package-level state of the root package and the six minifier packages: a generated
 	// file per package hands out pointers to every package-level variable (found in the AST
 	// of the current tree, so a newly introduced global is covered automatically)
@@ -347,4 +351,253 @@ func CLI(repo, verif, scratch string) (*Overlay, error) {
 		return nil, err
 	}
 	return o, nil
+}
+
+// ---------------------------------------------------------------------------------------
+// Simulated time for C10: a deterministic work counter. Every function entry and every
+// loop body of the minifier packages and of the parse module they sit on gets
+// `verifcost.C[id]++` (id = one per function) inserted textually right after the opening
+// brace, on the same line, so that line numbers, comments and stack traces stay as they
+// are. One tick is one function call or one loop iteration; the harness reads the counters
+// the way a discrete-event simulator reads its clock.
+
+// CostPackages lists the packages of /repo that are instrumented; the sub-packages of
+// github.com/tdewolff/parse/v2 that they import are added by Cost.
+var CostPackages = []string{".", "css", "html", "js", "json", "svg", "xml"}
+
+var costParsePkgs = []string{".", "buffer", "css", "html", "js", "json", "strconv", "xml"}
+
+// Cost adds the instrumented files to o and returns the generated names file (function
+// names indexed by counter id). parseDir is a private writable copy of the parse module, which
+// the build uses through a replace directive.
+func Cost(o *Overlay, repo, parseDir, scratch string) ([]byte, error) {
+	type unit struct{ dir, label string }
+	var units []unit
+	for _, p := range CostPackages {
+		l := "minify/" + p
+		if p == "." {
+			l = "minify"
+		}
+		units = append(units, unit{filepath.Join(repo, p), l})
+	}
+	for _, p := range costParsePkgs {
+		l := "parse/" + p
+		if p == "." {
+			l = "parse"
+		}
+		units = append(units, unit{filepath.Join(parseDir, p), l})
+	}
+	var names []string
+	for ui, u := range units {
+		files, err := goFiles(u.dir)
+		if err != nil {
+			return nil, err
+		}
+		for fi, f := range files {
+			cur := f
+			if r, ok := o.Replace[f]; ok {
+				cur = r
+			}
+			src, err := os.ReadFile(cur)
+			if err != nil {
+				return nil, err
+			}
+			out, added, err := instrumentCost(f, src, u.label, &names)
+			if err != nil {
+				return nil, err
+			}
+			if !added {
+				continue
+			}
+			if strings.HasPrefix(f, parseDir+string(filepath.Separator)) {
+				// parseDir is a private, writable copy of the module (files of the module
+				// cache cannot be overlaid): instrument it in place
+				if err := os.WriteFile(f, out, 0o644); err != nil {
+					return nil, err
+				}
+				continue
+			}
+			dst := filepath.Join(scratch, fmt.Sprintf("cost_%d_%d_%s", ui, fi, filepath.Base(f)))
+			if err := os.WriteFile(dst, out, 0o644); err != nil {
+				return nil, err
+			}
+			o.Replace[f] = dst
+		}
+	}
+	if len(names) > 16000 {
+		return nil, fmt.Errorf("cost instrumentation: %d functions, counter table too small", len(names))
+	}
+	var b bytes.Buffer
+	b.WriteString("// Code generated by overlaygen. DO NOT EDIT.\n\npackage verifcost\n\nfunc init() {\n\tNames = []string{\n")
+	for _, n := range names {
+		fmt.Fprintf(&b, "\t\t%q,\n", n)
+	}
+	b.WriteString("\t}\n}\n")
+	return b.Bytes(), nil
+}
+
+const costImport = "github.com/tdewolff/minify/v2/verifcost"
+
+func instrumentCost(file string, src []byte, label string, names *[]string) ([]byte, bool, error) {
+	fset := token.NewFileSet()
+	f, err := parser.ParseFile(fset, file, src, parser.ParseComments)
+	if err != nil {
+		return nil, false, err
+	}
+	if f.Name.Name == "main" {
+		return nil, false, nil
+	}
+	for _, im := range f.Imports {
+		if im.Name != nil && im.Name.Name == "verifcost" {
+			return nil, false, fmt.Errorf("%s already uses the name verifcost", file)
+		}
+	}
+	type ins struct {
+		off  int
+		id   int
+		text string // "" = one tick
+	}
+	var inserts []ins
+	// hidden linear work: copy(dst, src) and append(dst, src...) move len(src) bytes in one
+	// "step"; they are charged one tick per 8 elements, evaluated just before the simple
+	// statement they occur in (only when the source expression has no calls or receives, so
+	// that evaluating it twice changes nothing)
+	simple := func(e ast.Expr) bool {
+		ok := true
+		ast.Inspect(e, func(x ast.Node) bool {
+			switch u := x.(type) {
+			case *ast.CallExpr, *ast.FuncLit:
+				ok = false
+			case *ast.UnaryExpr:
+				if u.Op == token.ARROW {
+					ok = false
+				}
+			}
+			return ok
+		})
+		return ok
+	}
+	bulk := func(list []ast.Stmt, id int) {
+		for _, st := range list {
+			switch st.(type) {
+			case *ast.ExprStmt, *ast.AssignStmt, *ast.ReturnStmt, *ast.DeclStmt:
+			default:
+				continue
+			}
+			ast.Inspect(st, func(x ast.Node) bool {
+				if _, ok := x.(*ast.FuncLit); ok {
+					return false
+				}
+				c, ok := x.(*ast.CallExpr)
+				if !ok || len(c.Args) != 2 {
+					return true
+				}
+				fn, ok := c.Fun.(*ast.Ident)
+				if !ok || !(fn.Name == "copy" || fn.Name == "append" && c.Ellipsis.IsValid()) {
+					return true
+				}
+				if !simple(c.Args[1]) {
+					return true
+				}
+				a, b := fset.Position(c.Args[1].Pos()).Offset, fset.Position(c.Args[1].End()).Offset
+				if fn.Name == "copy" {
+					// copy moves min(len(dst), len(src)) elements
+					if !simple(c.Args[0]) {
+						return true
+					}
+					d0, d1 := fset.Position(c.Args[0].Pos()).Offset, fset.Position(c.Args[0].End()).Offset
+					inserts = append(inserts, ins{fset.Position(st.Pos()).Offset, id, fmt.Sprintf(" verifcost.C[%d] += verifcost.Bulk(len(%s), len(%s)); ", id, src[d0:d1], src[a:b])})
+					return true
+				}
+				inserts = append(inserts, ins{fset.Position(st.Pos()).Offset, id, fmt.Sprintf(" verifcost.C[%d] += verifcost.Bulk(len(%s), len(%s)); ", id, src[a:b], src[a:b])})
+				return true
+			})
+		}
+	}
+	newID := func(name string) int {
+		*names = append(*names, label+"."+name)
+		return len(*names) - 1
+	}
+	var walk func(n ast.Node, id int)
+	walk = func(n ast.Node, id int) {
+		ast.Inspect(n, func(x ast.Node) bool {
+			switch s := x.(type) {
+			case *ast.FuncLit:
+				if s.Body != nil {
+					inserts = append(inserts, ins{fset.Position(s.Body.Lbrace).Offset + 1, id, ""})
+				}
+			case *ast.ForStmt:
+				inserts = append(inserts, ins{fset.Position(s.Body.Lbrace).Offset + 1, id, ""})
+			case *ast.RangeStmt:
+				inserts = append(inserts, ins{fset.Position(s.Body.Lbrace).Offset + 1, id, ""})
+			case *ast.BlockStmt:
+				bulk(s.List, id)
+			case *ast.CaseClause:
+				bulk(s.Body, id)
+			case *ast.CommClause:
+				bulk(s.Body, id)
+			}
+			return true
+		})
+	}
+	litID := -1
+	for _, d := range f.Decls {
+		switch fd := d.(type) {
+		case *ast.FuncDecl:
+			if fd.Body == nil {
+				continue
+			}
+			name := fd.Name.Name
+			if fd.Recv != nil && len(fd.Recv.List) == 1 {
+				var tb bytes.Buffer
+				format.Node(&tb, fset, fd.Recv.List[0].Type)
+				name = "(" + tb.String() + ")." + name
+			}
+			id := newID(name)
+			inserts = append(inserts, ins{fset.Position(fd.Body.Lbrace).Offset + 1, id, ""})
+			walk(fd.Body, id)
+		case *ast.GenDecl:
+			// function literals in package-level initialisers
+			has := false
+			ast.Inspect(fd, func(x ast.Node) bool {
+				if _, ok := x.(*ast.FuncLit); ok {
+					has = true
+				}
+				return !has
+			})
+			if has {
+				if litID < 0 {
+					litID = newID(filepath.Base(file) + ":func-literal")
+				}
+				walk(fd, litID)
+			}
+		}
+	}
+	if len(inserts) == 0 {
+		return nil, false, nil
+	}
+	// back to front; at equal offsets the brace tick (recorded first) must end up before the
+	// statement charge, so it is inserted last
+	sort.SliceStable(inserts, func(i, j int) bool {
+		if inserts[i].off != inserts[j].off {
+			return inserts[i].off > inserts[j].off
+		}
+		return inserts[i].text != "" && inserts[j].text == ""
+	})
+	out := append([]byte(nil), src...)
+	for _, in := range inserts {
+		tick := []byte(fmt.Sprintf(" verifcost.C[%d]++; ", in.id))
+		if in.text != "" {
+			tick = []byte(in.text)
+		}
+		out = append(out[:in.off], append(tick, out[in.off:]...)...)
+	}
+	// the import goes on the line of the package clause
+	pos := fset.Position(f.Name.End()).Offset
+	imp := []byte("; import verifcost " + strconv.Quote(costImport))
+	out = append(out[:pos], append(imp, out[pos:]...)...)
+	if _, err := parser.ParseFile(token.NewFileSet(), file, out, 0); err != nil {
+		return nil, false, fmt.Errorf("cost-instrumented %s does not parse: %v", file, err)
+	}
+	return out, true, nil
 }
